@@ -12,6 +12,7 @@ import tempfile
 M = {
     "m1": 'states("A", x=1, y=2)\nstates("B", z=0.5)\nparameters("A", a=3, b=0.5)\nparameters("B", c=2)\nexpressions("A")\ni = a*x - y\nu = b*i\ndx_dt = i - b*x\ndy_dt = x*y - a + z\nexpressions("B")\nw = c*z + i\ndz_dt = -w\n',
     "m2": 'states("A", x=2, y=1)\nstates("B", z=1.5)\nparameters("A", a=1, b=2.5)\nparameters("B", c=4)\nexpressions("A")\ni = b*y + x\nu = a + i\ndx_dt = -i\ndy_dt = x - a*y\nexpressions("B")\nw = z/c\ndz_dt = w - i\n',
+    "m3": 'i = a*x - y\nu = b*i\ndx_dt = i - b*x\ndy_dt = x*y - a\nstates(x=1, y=2)\nparameters(a=3, b=0.5)\nstates("B", z=0.5)\nparameters("B", c=2)\nexpressions("B")\nw = c*z + i\ndz_dt = -w\n',
 }
 
 
@@ -46,6 +47,12 @@ class Proc:
                 import shutil
                 shutil.rmtree(d, ignore_errors=True)
             return None
+        if c["op"] == "load":
+            from gotranx.load import ode_from_string
+            ode = self.models[c["m"]] = ode_from_string(M[c["m"]], name=c["m"])
+            member = sorted((a.name, comp.name) for comp in ode.components
+                            for a in list(comp.states) + list(comp.parameters) + list(comp.assignments))
+            return sha(json.dumps(member) + gx.numpy_code(ode, []))
         if c["op"] == "split":
             ode = self.models[c["m"]]
             comp = ode.get_component("B")
@@ -80,7 +87,7 @@ def replay(hists):
     proc_calls = {}
     for h in hists:
         for c in h["hist"]:
-            if c["op"] in ("code", "split"):
+            if c["op"] in ("code", "split", "load"):
                 proc_calls[key(c)] = c
     import concurrent.futures as cf
     calls = list(proc_calls.values())
@@ -101,7 +108,9 @@ def replay(hists):
             got = p.do(c)
             if c["op"] == "reload":
                 reloaded.add(c["m"])
-            if c["op"] in ("code", "split"):
+            if c["op"] == "load":
+                reloaded.discard(c["m"])
+            if c["op"] in ("code", "split", "load"):
                 n += 1
                 want = (ref_after if c["m"] in reloaded else ref_plain)[key(c)]
                 if got != want:
